@@ -496,6 +496,8 @@ type NegotiateOpts struct {
 	// TLSCert != nil: STARTTLS is offered as required and negotiated first (protocol version at most TLSMax, 0 = any)
 	TLSCert *tls.Certificate
 	TLSMax  uint16
+	// NoPresence: the client does not announce itself (Resume() after a refused resumption): done after <enabled/> / bind
+	NoPresence bool
 }
 
 type NegotiateResult struct {
@@ -588,6 +590,9 @@ func (c *Conn) Negotiate(o NegotiateOpts, timeout time.Duration) (*NegotiateResu
 	if err := c.Write("<iq type='result' id='" + e.Attr["id"] + "'><bind xmlns='" + NSBind + "'><jid>" + o.Jid + "</jid></bind></iq>"); err != nil {
 		return res, err
 	}
+	if o.NoPresence && !o.SM {
+		return res, nil
+	}
 	e, err = c.Expect(timeout)
 	if err != nil {
 		return res, err
@@ -601,6 +606,9 @@ func (c *Conn) Negotiate(o NegotiateOpts, timeout time.Duration) (*NegotiateResu
 		}
 		if err := c.Write("<enabled xmlns='" + NSSM + "' id='" + o.SMID + "' resume='" + r + "'/>"); err != nil {
 			return res, err
+		}
+		if o.NoPresence {
+			return res, nil
 		}
 		e, err = c.Expect(timeout)
 		if err != nil {
